@@ -53,7 +53,10 @@ inductive Derives : Nat → List T → E → Prop
   | unaryUp {ts e} : Derives 7 ts e → Derives 6 ts e
   | neg {ts e} : Derives 6 ts e → Derives 6 (.op "-" :: ts) (.neg e)
 
-/-- the Go parse tree encodes unary minus as `x * -1` and cancels pairs of minus signs -/
+/-- the Go parse tree encodes unary minus as `x * -1`; a run of `n` minus signs is `x * -1` for odd
+`n` and `(x * -1) * -1` for even `n > 0`: numerically the pairs cancel (IEEE negation is an
+involution, NaN and ±0 included) but the operand is still converted to a number (§3.5: `- - e` is a
+number whatever the type of `e`) -/
 def E.toAst : E → Ast
   | .atom a => a
   | .bin op l r => .oper op l.toAst r.toAst
@@ -61,7 +64,8 @@ def E.toAst : E → Ast
 where
   negAst : E → Nat → Ast
     | .neg y, n => negAst y (n + 1)
-    | y, n => if n % 2 == 1 then .oper "*" y.toAst (.num "-1") else y.toAst
+    | y, n => if n % 2 == 1 then .oper "*" y.toAst (.num "-1")
+              else .oper "*" (.oper "*" y.toAst (.num "-1")) (.num "-1")
 
 /-! ## Executable reference parser for chains (fuel = token count) -/
 
